@@ -74,6 +74,10 @@ def run(ctx):
             el = ['exitlife %d %d 128' % (variant, full)]
             rc, out, err = run_san(aexe, el, env, 3600)
             judge('ASan/LSan/UBSan, objects released during process termination (%s%s)' % (vname, ', full key set' if full else ''), 'exitlife %d %d' % (variant, full), rc, out, err, {'tool': 'asan', 'lines': el})
+    # deletion order: the parameter set object deleted before the key sets made from it
+    dl = ['delorder 128', 'delorder 80']
+    rc, out, err = run_san(aexe, dl, env, 3600)
+    judge('ASan/LSan/UBSan, parameter set deleted before its key sets', 'delorder', rc, out, err, {'tool': 'asan', 'lines': dl})
     # the lower-level key lifecycle: the coefficient-domain bootstrapping key is deleted before its FFT conversion is used and deleted
     flines = ['fftkeylife 3 1 2 10 8 2', 'fftkeylife 9 2 3 7 4 4', 'fftkeylife 1 1 2 16 2 8']
     rc, out, err = run_san(aexe, flines, env, 3600)
